@@ -355,17 +355,18 @@ theorem progress_pulse_exact (cw : Char → Nat) (hsp : cw ' ' = 1) (hd : cw '-'
   generalize (env.legacyWindows || env.asciiOnly) = ascii
   have hlen := pulseChars_length env ascii
   rw [lineLength_singles]
-  · simp only [List.length_take, List.length_drop, length_flatten_replicate, hlen]
+  · unfold pySlice
+    simp only [List.length_take, List.length_drop, length_flatten_replicate, hlen]
     have h1 : Int.tdiv width ((20 : Nat) : Int) = width / 20 := Int.tdiv_eq_ediv_of_nonneg hw
     simp only [h1]
     have h2 : 0 ≤ width / 20 := Int.ediv_nonneg hw (by omega)
-    have h3 : (Int.tdiv (-o.time.num * 15) o.time.den % ((20 : Nat) : Int)).toNat < 20 := by
-      have := Int.emod_lt_of_pos (Int.tdiv (-o.time.num * 15) o.time.den) (show (0 : Int) < ((20 : Nat) : Int) by omega)
-      have := Int.emod_nonneg (Int.tdiv (-o.time.num * 15) o.time.den) (show ((20 : Nat) : Int) ≠ 0 by omega)
-      omega
+    have h3 := Int.emod_lt_of_pos (Int.tdiv (-o.time.num * 15) o.time.den) (show (0 : Int) < ((20 : Nat) : Int) by omega)
+    have h4 := Int.emod_nonneg (Int.tdiv (-o.time.num * 15) o.time.den) (show ((20 : Nat) : Int) ≠ 0 by omega)
+    generalize Int.tdiv (-o.time.num * 15) o.time.den % ((20 : Nat) : Int) = off at h3 h4 ⊢
+    rw [if_neg (by omega)]
     omega
   · intro c hc
-    have hm := mem_flatten_replicate _ _ c (List.mem_of_mem_drop (List.mem_of_mem_take hc))
+    have hm := mem_flatten_replicate _ _ c (List.mem_of_mem_take (List.mem_of_mem_drop hc))
     rcases pulseChars_mem env ascii c hm with h | h | h <;> rw [h] <;> assumption
 
 /-- the number of completed half cells lies between 0 and `2 * width` -/
@@ -502,7 +503,7 @@ theorem progressConsole_no_nl (env : Env) (o : ProgressOpts) (w : Int) :
   by_cases hp : o.pulse = true
   · simp only [hp, if_true, List.mem_map] at hs
     obtain ⟨ch, hch, rfl⟩ := hs
-    have hm := mem_flatten_replicate _ _ ch (List.mem_of_mem_drop (List.mem_of_mem_take hch))
+    have hm := mem_flatten_replicate _ _ ch (List.mem_of_mem_take (List.mem_of_mem_drop hch))
     rcases pulseChars_mem env _ ch hm with h | h | h <;> simp [seg, h]
   · simp only [hp, Bool.false_eq_true, if_false] at hs
     generalize (if o.total.isZero = true then width * 2 else
